@@ -610,6 +610,39 @@ func vRunLife(c *vCase) {
 			x.stop(1)
 			x.afterStop()
 		}
+	case (kind == "abaco-udp" || kind == "roach-udp") && scen == 3:
+		// fault: datagrams that are not valid packets arrive on the data port while the source runs
+		if x.start(true) {
+			if conn, err := net.Dial("udp", fmt.Sprintf("127.0.0.1:%d", port)); err == nil {
+				for i := 0; i < 1+r.Intn(3); i++ {
+					junk := make([]byte, vPick(r, 0, 1, 7, 16, 20, 100, 1000))
+					r.Read(junk)
+					if kind == "abaco-udp" && vChance(r, 0.4) {
+						// a well-formed packet, but of a channel group that was not there when the source started
+						p := packets.NewPacket(10, 77, uint32(5000+i), 500)
+						p.SetTimestamp(&packets.PacketTimestamp{T: uint64(9000000 + i), Rate: 1e8})
+						p.NewData(make([]int16, 8*3), []int16{3})
+						junk = p.Bytes()
+						x.note("packet of an unknown channel group sent to the data port")
+					}
+					conn.Write(junk)
+					x.note("malformed datagram of %d bytes sent to the data port", len(junk))
+					time.Sleep(2 * time.Millisecond)
+				}
+				conn.Close()
+			}
+			c.Cov("malformed_datagrams_cases", 1)
+			// the stream of good packets continues: either data keep flowing or the source ends itself; it must not wedge or crash
+			p1 := atomic.LoadInt64(&ord.process)
+			for i := 0; i < 3000 && atomic.LoadInt64(&ord.process) < p1+3 && l.ds.GetState() == Active; i++ {
+				time.Sleep(time.Millisecond)
+			}
+			if atomic.LoadInt64(&ord.process) >= p1+3 {
+				c.Cov("data_flowing_after_malformed_datagram", 1)
+			}
+			x.stop(1)
+			x.afterStop()
+		}
 	case l.selfEnd != nil || kind == "erroring":
 		// self-termination vs Stop
 		pairs := [][2]string{{"", ""}, {"core.exit.err", "stop.enter"}, {"core.exit.closed", "stop.enter"}, {"deactivate.enter", "stop.enter"}, {"deactivate.enter", "stop.signalled"},
